@@ -38,12 +38,14 @@ class ScriptedPRNG:
         self.script = script
         self.pos = 0
         self.log: list[dict] = []
+        self.keys: list = []  # raw key data of every draw (None if not concrete)
         self.passthrough = passthrough
         self._orig: dict[str, Any] = {}
 
     # -- answers -------------------------------------------------------------------
     def _next(self, fn: str, shape, info: dict):
         self.log.append({"fn": fn, "shape": tuple(shape), **info})
+        self.keys.append(info.pop("key", None))
         i = self.pos
         self.pos += 1
         if callable(self.script):
@@ -51,6 +53,17 @@ class ScriptedPRNG:
         if i >= len(self.script):
             raise ScriptExhausted(f"draw #{i} ({fn}{tuple(shape)}) beyond the script")
         return self.script[i]
+
+    def duplicate_keys(self):
+        """Keys that were consumed by more than one draw (None entries are ignored)."""
+        seen, dup = set(), []
+        for k in self.keys:
+            if k is None:
+                continue
+            if k in seen:
+                dup.append(k)
+            seen.add(k)
+        return dup
 
     def assert_consumed(self):
         if not callable(self.script) and self.pos != len(self.script):
@@ -72,36 +85,43 @@ class ScriptedPRNG:
             except Exception:
                 return None
 
+        def keyd(key):
+            try:
+                k = key if not hasattr(key, "dtype") or not jax.dtypes.issubdtype(key.dtype, jax.dtypes.prng_key) else jax.random.key_data(key)
+                return tuple(int(x) for x in np.asarray(k).ravel())
+            except Exception:
+                return None
+
         def normal(key, shape=(), dtype=float):
-            a = seam._next("normal", shape, {})
+            a = seam._next("normal", shape, {"key": keyd(key)})
             return jnp.broadcast_to(jnp.asarray(a, dtype=dtype), shape)
 
         def uniform(key, shape=(), dtype=float, minval=0.0, maxval=1.0):
-            a = seam._next("uniform", shape, {"minval": conc(minval), "maxval": conc(maxval)})
+            a = seam._next("uniform", shape, {"minval": conc(minval), "maxval": conc(maxval), "key": keyd(key)})
             return jnp.broadcast_to(jnp.asarray(a, dtype=dtype), shape)
 
         def truncated_normal(key, lower, upper, shape=None, dtype=float):
             shp = shape if shape is not None else jnp.broadcast_shapes(jnp.shape(lower), jnp.shape(upper))
-            a = seam._next("truncated_normal", shp, {"lower": conc(lower), "upper": conc(upper)})
+            a = seam._next("truncated_normal", shp, {"lower": conc(lower), "upper": conc(upper), "key": keyd(key)})
             return jnp.broadcast_to(jnp.asarray(a, dtype=dtype), shp)
 
         def bernoulli(key, p=0.5, shape=None):
             shp = shape if shape is not None else jnp.shape(p)
-            u = seam._next("bernoulli", shp, {"p": conc(p)})
+            u = seam._next("bernoulli", shp, {"p": conc(p), "key": keyd(key)})
             return jnp.asarray(u) < p
 
         def gamma(key, a, shape=None, dtype=float):
             shp = shape if shape is not None else jnp.shape(a)
-            g = seam._next("gamma", shp, {"a": conc(a)})
+            g = seam._next("gamma", shp, {"a": conc(a), "key": keyd(key)})
             return jnp.broadcast_to(jnp.asarray(g, dtype=jnp.result_type(float)), shp)
 
         def categorical(key, logits, axis=-1, shape=None):
-            i = seam._next("categorical", jnp.shape(logits), {"logits": conc(logits)})
+            i = seam._next("categorical", jnp.shape(logits), {"logits": conc(logits), "key": keyd(key)})
             return jnp.asarray(i, dtype=jnp.int32)
 
         def permutation(key, x, axis=0, independent=False):
             n = x if isinstance(x, int) else len(x)
-            p = seam._next("permutation", (n,), {})
+            p = seam._next("permutation", (n,), {"key": keyd(key)})
             p = jnp.asarray(p)
             return p if isinstance(x, int) else jnp.asarray(x)[p]
 
